@@ -9,7 +9,7 @@ from vlib.runner import Sub, Violation
 
 def check_preserve(case):
     nl, spec = case['nl'], case['spec']
-    c = build.build(nl, case['route'])
+    c = simp.build_for_pass(case)
     before = wellformed.snapshot(c)
     res = simp.apply_spec(spec, c, reuse=bool(case.get('reuse_instance')), hand=case.get('hand', 'list'))
     if res is c:
